@@ -6,6 +6,13 @@ sys.path.insert(0, os.path.join(ROOT, "tools"))
 import manifest_src as src
 
 props = [json.loads(l)["id"] for l in open(os.path.join(ROOT, "properties.jsonl"))]
+# entries delivered as props/cNN.manifest.json (text, note, technique, design_ref) are merged for the ids listed in
+# manifest_src.FROM_FILES (a check is listed there once it has been accepted)
+for pid in getattr(src, "FROM_FILES", []):
+    f = os.path.join(ROOT, "props", pid.lower() + ".manifest.json")
+    e = json.load(open(f))
+    src.CHECKS[pid] = {"text": e["text"], "note": e["note"], "technique": e["technique"],
+                       "design_ref": e.get("design_ref", "DESIGN.md section 5 " + pid)}
 checks = []
 for pid in props:
     c = src.CHECKS.get(pid)
